@@ -195,8 +195,16 @@ theorem C02_sql_pinned :
     Shutter.Generated.SqlFacts.keyper_GetLatestStartedEonByKeyperConfigIndex =
       "SELECT eon, height, activation_block_number, keyper_config_index FROM eons WHERE keyper_config_index = $1 ORDER BY eon DESC LIMIT 1" ∧
     Shutter.Generated.SqlFacts.keyper_GetDKGResultForKeyperConfigIndex =
-      "SELECT eon, success, error, pure_result FROM dkg_result WHERE eon = (SELECT max(eon) FROM eons WHERE keyper_config_index = $1)" :=
-  ⟨rfl, rfl, rfl⟩
+      "SELECT eon, success, error, pure_result FROM dkg_result WHERE eon = (SELECT max(eon) FROM eons WHERE keyper_config_index = $1)" ∧
+    -- the fired triggers a block looks at are the ones not marked decrypted: the filter is the query's (the model's
+    -- `eventTriggers` and the database stand-in of the rig both take it from here)
+    Shutter.Generated.SqlFacts.service_GetUndecryptedFiredTriggers =
+      "SELECT f.identity_prefix, f.sender, f.block_number, f.block_hash, f.tx_index, f.log_index, e.eon AS eon, e.expiration_block_number AS expiration_block_number, e.identity AS identity, e.decrypted AS decrypted FROM fired_triggers f INNER JOIN event_trigger_registered_event e ON f.eon = e.eon AND f.identity = e.identity WHERE NOT EXISTS ( -- not decrypted yet SELECT 1 FROM event_trigger_registered_event e WHERE e.eon = f.eon AND e.identity = f.identity AND e.decrypted = true )" ∧
+    Shutter.Generated.SqlFacts.service_UpdateEventBasedDecryptedFlags =
+      "UPDATE event_trigger_registered_event SET decrypted = TRUE WHERE (eon, identity) IN ( SELECT UNNEST($1::bigint[]), UNNEST($2::bytea[]) )" ∧
+    Shutter.Generated.SqlFacts.service_UpdateTimeBasedDecryptedFlags =
+      "UPDATE identity_registered_event SET decrypted = TRUE WHERE (eon, identity) IN ( SELECT UNNEST($1::bigint[]), UNNEST($2::bytea[]) )" :=
+  ⟨rfl, rfl, rfl, rfl, rfl, rfl⟩
 
 /-! ### non-vacuity -/
 
